@@ -75,17 +75,19 @@ Theorem C07_new_buffer_exact : forall bits enc, well_behaved bits enc ->
               Done {| nb_buffer := buf; nb_result := r; nb_bad := false |} /\
     (buf = None \/ buf = Some (concat delivered)) /\
     (malloc_ok = false -> buf = None) /\
-    (malloc_ok = true -> (forall i, afail i = false) -> buf = Some (concat delivered)).
+    (encoded r < 0 -> buf = None) /\
+    (malloc_ok = true -> (forall i, afail i = false) -> 0 <= encoded r -> buf = Some (concat delivered)).
 Proof. exact new_buffer_exact. Qed.
 Print Assumptions C07_new_buffer_exact.
 
-(* asn_application.h promises a NULL buffer on failure; the code returns what it has collected *)
-Theorem C07_new_buffer_null_on_failure_refuted :
-  exists enc, well_behaved false enc /\
-    asn_encode_to_new_buffer true (Op false enc) true (fun _ => false) =
-    Done {| nb_buffer := Some [1; 2; 3]; nb_result := {| encoded := -1; err := EBADF |}; nb_bad := false |}.
-Proof. exact new_buffer_null_on_failure_refuted. Qed.
-Print Assumptions C07_new_buffer_null_on_failure_refuted.
+(* asn_application.h: "On failure: (.buffer) is NULL" *)
+Theorem C07_new_buffer_null_on_failure : forall bits enc, well_behaved bits enc ->
+  forall calls delivered r, fault_free_run bits enc calls delivered r -> encoded r < 0 ->
+  forall malloc_ok afail,
+  asn_encode_to_new_buffer true (Op bits enc) malloc_ok afail =
+  Done {| nb_buffer := None; nb_result := r; nb_bad := false |}.
+Proof. exact new_buffer_null_on_failure. Qed.
+Print Assumptions C07_new_buffer_null_on_failure.
 
 (* outside the contract the asserts of asn_application.c do fire (so the contract is what keeps them quiet) *)
 Theorem C07_asserts_fire_outside_contract :
